@@ -3,6 +3,7 @@ package checks
 import (
 	"fmt"
 	"regexp"
+	"strconv"
 	"strings"
 
 	"verif/h/gen"
@@ -36,7 +37,82 @@ func newC10(tier string) run.Job {
 
 // unit = (value of @.a, value of @.b); inside: all ($.a, $.b) x atoms x decodings;
 // plus one unit per first chunk of the string-literal family
-func (j *c10Job) NumUnits() int { return len(j.vals)*len(j.vals) + len(c10StrChunks) + 1 }
+func (j *c10Job) NumUnits() int {
+	return len(j.vals)*len(j.vals) + len(c10StrChunks) + 1 + len(c10NumLiterals)
+}
+
+// number literals in the PATH in unusual spellings (the grammar takes [-+]?[0-9][-+.0-9a-zA-Z]*
+// and hands the text to strconv.ParseFloat): signed zero, exponents, trailing zeros, leading
+// zeros and sign, a hexadecimal float. One unit per spelling.
+var c10NumLiterals = []string{"-0", "0", "+1", "01", "1.0", "1e0", "1E+0", "0.1e1", "10e-1", "1.000", "0x1p0", "2.5e-1", "-1.5", "1e-400", "123456789012345678901234567890"}
+
+var c10NumMembers = []string{`{}`, `{"a":0}`, `{"a":-0}`, `{"a":1}`, `{"a":1.0}`, `{"a":1e0}`, `{"a":0.25}`, `{"a":-1.5}`, `{"a":2}`, `{"a":"1"}`, `{"a":null}`, `{"a":true}`,
+	`{"a":123456789012345678901234567890}`, `{"a":[1]}`, `{"a":1e-400}`}
+
+func (j *c10Job) runNumbers(k int, c *run.Ctx) {
+	raw := c10NumLiterals[k]
+	v, err := strconv.ParseFloat(raw, 64)
+	if err != nil {
+		c.Add("literal_not_a_float", 1)
+		return
+	}
+	lit := &gen.Operand{Lit: &gen.Literal{Kind: gen.LNum, Num: v, Raw: raw}}
+	at := gen.OpP(gen.P('@', gen.Name("a")))
+	rootB := gen.OpP(gen.P('$', gen.Name("b")))
+	docText := `{"b":` + raw + `,"c":[` + strings.Join(c10NumMembers, ",") + `]}`
+	if _, err := strconv.ParseFloat(raw, 64); raw[0] == '+' || raw == "01" || strings.HasPrefix(raw, "0x") || err != nil {
+		docText = `{"b":1,"c":[` + strings.Join(c10NumMembers, ",") + `]}` // not a JSON number spelling
+	}
+	var qs []*gen.Query
+	for _, op := range []string{"==", "!=", "<", "<=", ">", ">="} {
+		qs = append(qs, gen.Cmp(op, at, lit), gen.Cmp(op, lit, at), gen.Cmp(op, lit, rootB), gen.Cmp(op, lit, lit))
+	}
+	var docs [2]interface{}
+	docs[modeFloat] = decodeDoc(docText, modeFloat)
+	docs[modeNumber] = decodeDoc(docText, modeNumber)
+	for _, q := range qs {
+		c.Tick()
+		p := gen.P('$', gen.Name("c"), gen.Filter(q))
+		text := gen.Render(p, nil).Text
+		pr := impl.Parse(text, &j.env.Cfg)
+		if pr.F == nil {
+			c.Violate(run.Violation{Sig: "number-literal-rejected:" + gen.QueryShape(q), Detail: fmt.Sprintf("%s rejected: %s %s %s", text, pr.ErrType, pr.ErrMsg, pr.Panic), Size: len(text),
+				Case: map[string]interface{}{"path": text, "doc": docText, "mode": modeName[0], "ast": jsonRaw(p)}})
+			continue
+		}
+		var shown [2]string
+		var masks [2]string
+		for _, m := range []int{modeFloat, modeNumber} {
+			out := spec.Eval(p, docs[m], j.env.Model)
+			res := impl.Call(pr.F, docs[m])
+			c.Evals++
+			c.Traces++
+			c.Outcome(res.Key())
+			if len(out.Nodes) > 0 {
+				c.Nontrivial++
+			}
+			shown[m] = res.ErrType + show(res.Values)
+			mk, mok := maskOf(res.Values, docs[m].(map[string]interface{})["c"].([]interface{}))
+			masks[m] = fmt.Sprintf("%s/%b/%v", res.ErrType, mk, mok)
+			if ok, kind, detail := c01Judge(&out, res); !ok {
+				c.Violate(run.Violation{
+					Sig:    "number-literal-" + kind + ":" + gen.QueryShape(q),
+					Detail: fmt.Sprintf("%s on %s (%s): %s", text, docText, modeName[m], detail),
+					Size:   len(text)*100 + len(docText),
+					Case:   map[string]interface{}{"path": text, "doc": docText, "mode": modeName[m], "ast": jsonRaw(p)},
+				})
+			}
+		}
+		if masks[0] != masks[1] {
+			c.Violate(run.Violation{
+				Sig:    "number-literal-decoding:" + gen.QueryShape(q),
+				Detail: fmt.Sprintf("%s on %s: float64 decoding gives %s, json.Number decoding gives %s", text, docText, shown[0], shown[1]),
+				Size:   len(text)*100 + len(docText),
+				Case:   map[string]interface{}{"path": text, "doc": docText, "mode": "both", "ast": jsonRaw(p)},
+			})
+		}
+	}
+}
 func (j *c10Job) Describe(i int) map[string]interface{} {
 	return map[string]interface{}{"unit": i, "sig": fmt.Sprintf("c10unit:%d", i)}
 }
@@ -121,6 +197,11 @@ func (j *c10Job) runStrings(i int, c *run.Ctx) {
 		if !strings.Contains(sv, "\n") && !strings.HasSuffix(sv, `\`) {
 			re := regexp.QuoteMeta(sv)
 			atoms = append(atoms, atom{gen.Regex(gen.P('@', gen.Name("a")), re), "@.a=~/" + strings.ReplaceAll(re, "/", `\/`) + "/"})
+			// fully anchored: matches exactly the members whose a equals it
+			for _, anch := range [][2]string{{"^", "$"}, {`\A`, `\z`}, {"^", ""}, {"", "$"}} {
+				are := anch[0] + re + anch[1]
+				atoms = append(atoms, atom{gen.Regex(gen.P('@', gen.Name("a")), are), "@.a=~/" + strings.ReplaceAll(are, "/", `\/`) + "/"})
+			}
 		}
 		for _, at := range atoms {
 			c.Tick()
@@ -157,7 +238,10 @@ func (j *c10Job) runStrings(i int, c *run.Ctx) {
 }
 
 func (j *c10Job) RunUnit(i int, c *run.Ctx) {
-	if base := len(j.vals) * len(j.vals); i >= base {
+	if base := len(j.vals) * len(j.vals); i >= base+len(c10StrChunks)+1 {
+		j.runNumbers(i-base-len(c10StrChunks)-1, c)
+		return
+	} else if i >= base {
 		j.runStrings(i-base, c)
 		return
 	}
@@ -259,7 +343,7 @@ func init() {
 			"relational oracle: the json.Number decoding of the same JSON text selects the same members as the float64 decoding; number spellings other than Go's shortest ('1.0', '1e0', '100e-2', '2.000', '0.15e1') are used except where two paths are compared with == / !=",
 		},
 		Bounds: map[string]string{
-			"quick":    "219 atoms x operand values from {absent,1,2,1.5,-1,\"a\",\"1\",true,false,null,{},[1],{\"a\":1},{\"x\":null},{\"y\":null},[null]} plus 5 odd number spellings, the two floats adjacent to 1 and three integers beyond int64 (2^63, 9999999999999999999, -2^63-1) for each of @.a, @.b, $.a, $.b (at most one odd spelling per document, or @.a and $.a both odd) x 2 decodings; plus string literals: every string of <=3 chunks (14-chunk alphabet with quotes, backslash, slash, space, newline, non-ASCII; third chunk from 4) in both quote styles, both operand orders, ==, !=, literal==literal, $-path==literal and as an escaped regular expression, against 7 near-miss members",
+			"quick":    "219 atoms x operand values from {absent,1,2,1.5,-1,\"a\",\"1\",true,false,null,{},[1],{\"a\":1},{\"x\":null},{\"y\":null},[null]} plus 5 odd number spellings, the two floats adjacent to 1 and three integers beyond int64 (2^63, 9999999999999999999, -2^63-1) for each of @.a, @.b, $.a, $.b (at most one odd spelling per document, or @.a and $.a both odd) x 2 decodings; plus string literals: every string of <=3 chunks (14-chunk alphabet with quotes, backslash, slash, space, newline, non-ASCII; third chunk from 4) in both quote styles, both operand orders, ==, !=, literal==literal, $-path==literal and as an escaped regular expression (plain, ^..$, \\A..\\z, ^.., ..$), against 7 near-miss members; plus 15 unusual spellings of a number literal in the path (-0, +1, 01, 1E+0, 0.1e1, 0x1p0, 1e-400, 30 digits, ...) in all six operators, both orders, against @.a, $.b and itself, over 15 member values, both decodings",
 			"thorough": "same as quick (the space is enumerated completely in both tiers)",
 		},
 		New: newC10,
